@@ -1,14 +1,17 @@
 #!/bin/sh
 # Run quick checks against a scratch copy of /repo with a seeded patch applied
-# (leaves /repo untouched, so several can run side by side).
+# (leaves /repo untouched, so several can run side by side).  The framework is
+# copied too, so that editing /verif/simqb while this runs does not disturb it.
 #   usage: try_seeded.sh <patch.diff> <prop> [<prop> ...]
 set -u
 P=$1; shift
 T=$(mktemp -d /tmp/try-XXXXXX)
-mkdir "$T/repo"
+mkdir "$T/repo" "$T/verif"
 (cd /repo && git archive HEAD) | tar -x -C "$T/repo"
 (cd "$T/repo" && patch -p1 -s < "$P") || { echo "PATCH DOES NOT APPLY"; rm -rf "$T"; exit 3; }
-cd /verif || exit 2
+cp -r /verif/simqb "$T/verif/simqb"
+cp /verif/known_findings.json "$T/verif/"
+cd "$T/verif" || exit 2
 for prop in "$@"; do
   SIMQB_REPO="$T/repo" SIMQB_EVIDENCE_DIR="$T/ev" SIMQB_REPLAY_DIR="$T/rp" \
     timeout 1500 /venv/bin/python -m simqb check "$prop" --tier quick > "$T/out.$prop" 2>&1
@@ -17,4 +20,5 @@ for prop in "$@"; do
   grep "^  class" "$T/out.$prop" | cut -c1-260 | head -6
   echo "exit($prop)=$rc"
 done
+cd /
 rm -rf "$T"
